@@ -52,33 +52,21 @@ def C01_sampleChoices : Choices :=
   { lead := " \t".toList, trail := "\r".toList, afterLabel := 2, eqBefore := 1, eqAfter := 3,
     args := [(0, true), (2, false)], comment := some (1, " note # \" ".toList) }
 
-example : instrOKb C01_sampleInstr = true := by decide
+example : InstrOK C01_sampleInstr := instrOK_of_b _ (by decide)
 
-example : InstrOK C01_sampleInstr := by
-  refine ⟨?_, ?_, ?_, ?_⟩
-  · intro l h
-    cases h
-    exact ⟨"l".toList, rfl, by decide, by decide, by decide⟩
-  · intro o h
-    cases h
-    refine ⟨⟨by decide, by decide, by decide⟩, ?_, ?_⟩
-    · simp [NoEq]
-    · intro h; cases h
-  · intro c h
-    cases h
-    refine ⟨⟨by decide, by decide, by decide⟩, ?_⟩
-    intro h; cases h
-  · exact ⟨fun h => by cases h, by decide⟩
+example : ChoicesOK C01_sampleChoices := choicesOK_of_b _ (by decide)
 
-example : ChoicesOK C01_sampleChoices := by
-  refine ⟨by decide, by decide, ?_⟩
-  intro k t h
-  cases h
-  decide
-
-/-- so the theorem applies to the sample line -/
+/-- so the line theorem applies to the sample line -/
 example : parseLine (renderLine C01_sampleChoices C01_sampleInstr) = .ok (.script C01_sampleInstr) :=
-  C01_line_roundtrip _ _ (by decide_instr) (by decide_choices)
+  C01_line_roundtrip _ _ (instrOK_of_b _ (by decide)) (choicesOK_of_b _ (by decide))
+
+/-- … and the script theorems to a script made of it (LF and CRLF line ends) and a blank line -/
+example : (∀ x ∈ [(C01_sampleChoices, C01_sampleInstr, true), (C01_sampleChoices, C01_sampleInstr, false),
+      (({} : Choices), ({} : ScriptInstr), false)], InstrOK x.2.1 ∧ ChoicesOK x.1) := by
+  intro x hx
+  simp only [List.mem_cons, List.not_mem_nil, or_false] at hx
+  rcases hx with rfl | rfl | rfl <;>
+    exact ⟨instrOK_of_b _ (by decide), choicesOK_of_b _ (by decide)⟩
 
 /-- an instruction outside the domain (output variable containing `=`) is rejected by `InstrOK` -/
 example : ¬ InstrOK { output := some "a=b".toList, command := some "c".toList } := by
